@@ -17,6 +17,7 @@ the closed forms with `log`).  One reply line per request line.
   heteroprotocol                              → mode protocol of HeteroskedasticNoise.forward
   dir eps c N labels…                         → N bits (noise row c) N bits (transformed targets row c)
   dirshaped eps epsD ncS ncI c N labels… l [s] n c [labels…] → rows  bits(diag R) offdiag0
+  fixedapply k v₁…v_k                         → stored noise after a same-dtype / same-device move
   miss (elp|lm) (nan|y) m v r                 → -2·(polynomial part, 0 when missing)  bits(Float value)
 -/
 import GPVerif.Model.Noise
@@ -261,6 +262,16 @@ def stepMiss (ts : List String) : Option String := do
     | _ => none
   | _ => none
 
+/-- `fixedapply k v₁…v_k` → the stored noise after a move that keeps dtype and device (`fn = id`) -/
+def stepFixedApply (ts : List String) : Option String := do
+  match ts with
+  | k :: rest =>
+    let k ← k.toNat?
+    if rest.length ≠ k then none else
+    let v ← parseRats? rest
+    some (" ".intercalate ((fixedApplyGen id (fun _ _ => (0 : Rat)) v.toArray).toList.map showRat))
+  | _ => none
+
 def step (line : String) : String :=
   let r := match tokens line with
     | "homo" :: ts => stepHomo ts
@@ -276,6 +287,7 @@ def step (line : String) : String :=
     | "dir" :: ts => stepDir ts
     | "dirshaped" :: ts => stepDirShaped ts
     | "miss" :: ts => stepMiss ts
+    | "fixedapply" :: ts => stepFixedApply ts
     | ["heteroprotocol"] => some (" ".intercalate heteroProtocolGen)
     | _ => none
   r.getD "bad-request"
